@@ -160,6 +160,34 @@ def record_random(args):
     return _record(o, "seed %d %s" % (seed, meta), seed=seed)
 
 
+def record_requeried(args):
+    """The same Optic queried, edited (a glass replaced, surface count unchanged) and queried
+    again: the second answer must describe the edited lens (no stale state between queries)."""
+    seed, = args
+    rnd = random.Random(seed)
+    try:
+        o, meta = PX.random_lens(rnd, catalogue=True, conic_free=True, last_air=1.0, p_catalogue=0.7,
+                                 p_zero_field=0.0)
+        G.quiet(o.aberrations.third_order)          # first query
+        G.quiet(o.aberrations.TAchC)
+        sg = o.surface_group
+        cands = [k for k in range(1, sg.num_surfaces - 1) if not sg.surfaces[k].is_reflective
+                 and float(np.ravel(sg.surfaces[k].material_post.n(0.5876))[0]) != 1.0]
+        if not cands:
+            return {"skip": "no glass to replace", "label": "requery seed %d" % seed, "seed": seed}
+        k = rnd.choice(cands)
+        if rnd.random() < 0.5:
+            o.set_index(round(rnd.uniform(1.4, 1.9), 3), k)             # dispersion-free replacement
+        else:
+            from optiland.materials import Material
+            m = G.quiet(Material, *rnd.choice([("N-SF11", "schott"), ("N-BK7", "schott"), ("F2", "schott")]))
+            sg.surfaces[k].material_post = m
+            sg.surfaces[k + 1].material_pre = m
+    except Exception as ex:
+        return {"error": "build: %s: %s" % (type(ex).__name__, ex), "seed": seed}
+    return _record(o, "requery seed %d %s (glass behind surface %d replaced after a first query)" % (seed, meta, k), seed=seed)
+
+
 def record_sample(name):
     cls = {c.__name__: c for c in G.sample_classes()}[name]
     try:
@@ -345,6 +373,7 @@ def main(ctx):
     fut_rand = [pool.submit(record_random, (ctx.seed * 15485863 + i,)) for i in range(nrand)]
     fut_samp = [pool.submit(record_sample, c.__name__) for c in G.sample_classes()]
     fut_samp += [pool.submit(record_fixed, i) for i in range(len(FIXED))]
+    fut_samp += [pool.submit(record_requeried, (ctx.seed * 32452843 + i,)) for i in range(10 if quick else 120)]
     tpool = ThreadPoolExecutor(max_workers=1)
     fut_trace = tpool.submit(trace_phase, ctx.work, ctx.seed, quick, fut_rand, fut_samp)
 
